@@ -23,7 +23,13 @@ pub struct PairAgent {
     vs: ValueStore<i32>,
     ws: ValueStore<i32>,
     c: CommandLane<Act>,
+    /// a lane whose value can have the empty encoding (`None`); it starts at `Some(7)` so that
+    /// "nothing stored" and "the empty value stored" are different states
+    o: ValueLane<Option<i32>>,
 }
+
+/// Ordinal of the field `o` (its item id in the derived model).
+const O_ORDINAL: u64 = 5;
 
 #[derive(Clone)]
 pub struct PairLifecycle {
@@ -39,11 +45,19 @@ impl PairLifecycle {
             .get_value(PairAgent::V)
             .and_then(move |v| context.get_value(PairAgent::W).map(move |w| (v, w)))
             .and_then(move |(v, w)| context.get_value(PairAgent::VS).map(move |vs| (v, w, vs)))
-            .and_then(move |(v, w, vs)| {
+            .and_then(move |(v, w, vs)| context.get_value(PairAgent::O).map(move |o| (v, w, vs, o)))
+            .and_then(move |(v, w, vs, o): (i32, i32, i32, Option<i32>)| {
                 context.effect(move || {
                     log.push(Truth::Start { v, w, t: 0, vs, m: vec![], ms: vec![] });
+                    log.push(Truth::Custom(format!("start:o={}", o.map(|x| x.to_string()).unwrap_or_default())));
                 })
             })
+    }
+
+    #[on_set(o)]
+    pub fn on_set_o(&self, context: HandlerContext<PairAgent>, new: &Option<i32>, _prev: Option<Option<i32>>) -> impl EventHandler<PairAgent> {
+        let (log, new) = (self.log.clone(), *new);
+        context.effect(move || log.push(Truth::Custom(format!("set:o={}", new.map(|x| x.to_string()).unwrap_or_default()))))
     }
 
     #[on_stop]
@@ -82,6 +96,8 @@ impl PairLifecycle {
                 Simple::SetW(x) => Box::new(context.set_value(PairAgent::W, x)),
                 Simple::SetVs(x) => Box::new(context.set_value(PairAgent::VS, x)),
                 Simple::SetWs(x) => Box::new(context.set_value(PairAgent::WS, x)),
+                Simple::SetO(x) => Box::new(context.set_value(PairAgent::O, Some(x))),
+                Simple::ClrO => Box::new(context.set_value(PairAgent::O, None)),
                 _ => Box::new(context.effect(|| ())),
             };
             handlers.push(h);
@@ -93,5 +109,10 @@ impl PairLifecycle {
 pub fn make(truth: Arc<TruthLog>) -> swimos_api::agent::BoxAgent {
     use swimos::agent::agent_model::AgentModel;
     let lifecycle = PairLifecycle { log: truth };
-    Box::new(AgentModel::new(PairAgent::default, lifecycle.into_lifecycle()))
+    fn agent() -> PairAgent {
+        let mut a = PairAgent::default();
+        a.o = ValueLane::new(O_ORDINAL, Some(7));
+        a
+    }
+    Box::new(AgentModel::new(agent, lifecycle.into_lifecycle()))
 }
